@@ -215,3 +215,51 @@ func withMaxPaths(in *absint.Interp, n int) *absint.Interp {
 	in.MaxPaths = n
 	return in
 }
+
+// funcValueLit resolves an expression used as a function value to its body, so that a rule written for
+// "the callback literal" also sees the callback when a maintainer has given it a name: a local variable assigned a
+// literal once (`filterRecord := func(…){…}`), or a package-level function or method of the analysed module
+// (`recordValuesEqual`, `octosql.HashManyValues`). The result is a synthetic literal sharing the declaration's
+// type and body nodes (so positions and type information stay valid). nil when e is none of these.
+func funcValueLit(p *core.Program, fn *core.FuncRef, e ast.Expr) *ast.FuncLit {
+	e = core.Unparen(e)
+	if lit, ok := e.(*ast.FuncLit); ok {
+		return lit
+	}
+	info := fn.Info()
+	var obj types.Object
+	switch v := e.(type) {
+	case *ast.Ident:
+		obj = info.Uses[v]
+	case *ast.SelectorExpr:
+		obj = info.Uses[v.Sel]
+	}
+	switch o := obj.(type) {
+	case *types.Var:
+		// a local assigned exactly once, to a literal
+		var lit *ast.FuncLit
+		n := 0
+		ast.Inspect(fn.Decl.Body, func(m ast.Node) bool {
+			as, ok := m.(*ast.AssignStmt)
+			if !ok || len(as.Lhs) != len(as.Rhs) {
+				return true
+			}
+			for i, l := range as.Lhs {
+				if id, ok := l.(*ast.Ident); ok && (info.Defs[id] == o || info.Uses[id] == o) {
+					n++
+					lit, _ = core.Unparen(as.Rhs[i]).(*ast.FuncLit)
+				}
+			}
+			return true
+		})
+		if n == 1 {
+			return lit
+		}
+	case *types.Func:
+		helperInline(p, "", nil) // make sure the declaration index is built
+		if fr := helperDecls[p][o]; fr != nil {
+			return &ast.FuncLit{Type: fr.Decl.Type, Body: fr.Decl.Body}
+		}
+	}
+	return nil
+}
